@@ -1153,6 +1153,9 @@ func (sp *ServiceProvider) decryptElement(encryptedEl *etree.Element) (*etree.El
 	if err := doc.ReadFromBytes(plaintextEl); err != nil {
 		return nil, fmt.Errorf("cannot parse plaintext response %v", err)
 	}
+	if doc.Root() == nil {
+		return nil, fmt.Errorf("plaintext response contains no element")
+	}
 	return doc.Root(), nil
 }
 
